@@ -25,7 +25,7 @@ import (
 func TestMain(m *testing.M) {
 	kit.Register("priority", priorityOracle)
 	kit.Register("unrendered", unrenderedOracle)
-	kit.Describe("priority: case = (list of probe components in registration order: block parsers with trigger '@' (no built-in), '#' (shared with the ATX heading parser at 600) or none; inline parsers with trigger '@' or '*' (shared with emphasis at 500); paragraph transformers; AST transformers; node renderers for a probe kind and for Emphasis (built-in renderer at 1000); each with a distinct priority, an accept/decline (or detach) behaviour and one of four registration channels: WithParserOptions/WithRendererOptions, WithExtensions, Parser().AddOptions/Renderer().AddOptions after New, a second extender) and a document of crafted lines; oracle: the invocation log and the output equal those of a priority-sorted reference dispatch (triggered parsers ascending, then trigger-less ascending, first acceptor wins; transformers ascending, a detaching paragraph transformer ends the chain; the renderer with the smallest priority value wins) and are identical for the canonical sorted single-channel registration of the same set. unrendered: a tree with a node of a kind nobody renders, or of a kind created after the renderer was first used, renders without error and its children are rendered. non-trivial = at least two probes compete for a trigger/kind with a built-in between them in priority and the registration order is not already sorted; distinct by hash of the case",
+	kit.Describe("priority: case = (list of probe components in registration order: block parsers with trigger '@' (no built-in), '#' (shared with the ATX heading parser at 600) or none; inline parsers with trigger '@' or '*' (shared with emphasis at 500); paragraph transformers; AST transformers; node renderers for a probe kind and for Emphasis (built-in renderer at 1000); each with a distinct priority, an accept/decline (or detach) behaviour and one of four registration channels: WithParserOptions/WithRendererOptions, WithExtensions, Parser().AddOptions/Renderer().AddOptions after New, a second extender) and a document of crafted lines (after a blank line, or directly after an open paragraph line where only parsers that can interrupt a paragraph take part, on a first byte some or no parser is triggered by); oracle: the invocation log and the output equal those of a priority-sorted reference dispatch (triggered parsers ascending, then trigger-less ascending, first acceptor wins; transformers ascending, a detaching paragraph transformer ends the chain; the renderer with the smallest priority value wins) and are identical for the canonical sorted single-channel registration of the same set. unrendered: a tree with a node of a kind nobody renders, or of a kind created after the renderer was first used, renders without error and its children are rendered. non-trivial = at least two probes compete for a trigger/kind with a built-in between them in priority and the registration order is not already sorted; distinct by hash of the case",
 		"built-in priorities as documented in parser.DefaultBlockParsers/DefaultInlineParsers and the html renderer (verified by a self-test)")
 	kit.Main(m, "C20")
 }
@@ -301,6 +301,8 @@ var docLines = map[string]string{
 	"inl*":   "para a *x* b\n",
 	"plain":  "plain\n",
 	"defhr":  "[foo]: /url\n---\n",
+	"pint%":  "plain\n% probe line\n", // a crafted line directly after an open paragraph, first byte nobody is triggered by
+	"pint@":  "plain\n@ probe line\n", // the same with a byte some probes are triggered by
 }
 
 func rendererFor(cs []comp, kind string, builtinPrio int) string {
@@ -418,6 +420,48 @@ func priorityOracle(c *kit.Case) error {
 				}
 			default:
 				wantOut.WriteString(renderProbe(w.name, false))
+			}
+		case "pint%", "pint@":
+			// the crafted line follows an open paragraph: only parsers that can interrupt a paragraph are
+			// tried - triggered ones ascending, then the trigger-less ones ascending (the built-in
+			// trigger-less parsers, indented code and paragraph, cannot interrupt); if nobody accepts the
+			// line continues the paragraph
+			tr := k[4:]
+			var trig, free []cand
+			for _, x := range cs {
+				if x.typ != "bp" || x.noInt {
+					continue
+				}
+				if x.trigger == tr {
+					trig = append(trig, cand{name: x.name, prio: x.prio, accept: x.accept})
+				} else if x.trigger == "-" {
+					free = append(free, cand{name: x.name, prio: x.prio, accept: x.accept})
+				}
+			}
+			calls, w := firstAcceptor(trig)
+			if w == nil {
+				var calls2 []string
+				calls2, w = firstAcceptor(free)
+				calls = append(calls, calls2...)
+			}
+			for _, n := range calls {
+				want = append(want, "bp:"+n)
+			}
+			switch {
+			case w != nil:
+				wantOut.WriteString("<p>plain</p>\n" + renderProbe(w.name, false))
+			case tr == "@":
+				ic, iw := inlineCalls("@", 0)
+				for _, n := range ic {
+					inlineLogs = append(inlineLogs, "ip:"+n)
+				}
+				if iw != nil {
+					wantOut.WriteString("<p>plain\n" + renderProbe(iw.name, true) + " probe line</p>\n")
+				} else {
+					wantOut.WriteString("<p>plain\n@ probe line</p>\n")
+				}
+			default:
+				wantOut.WriteString("<p>plain\n% probe line</p>\n")
 			}
 		case "defhr":
 			// "[foo]: /url" then "---": while the definition paragraph is open only
@@ -641,7 +685,8 @@ func TestPriority(t *testing.T) {
 			for i := 0; i < n; i++ {
 				tr := rapid.SampledFrom(triggers).Draw(t, typ+"tr")
 				cs = append(cs, comp{typ: typ, name: name(i), prio: prio(around[tr]), trigger: tr,
-					accept: rapid.IntRange(0, 2).Draw(t, typ+"acc") == 0, channel: rapid.IntRange(0, 3).Draw(t, typ+"ch")})
+					accept: rapid.IntRange(0, 2).Draw(t, typ+"acc") == 0, channel: rapid.IntRange(0, 3).Draw(t, typ+"ch"),
+					noInt: typ == "bp" && rapid.IntRange(0, 3).Draw(t, typ+"noint") == 0})
 			}
 		}
 		add("bp", rapid.IntRange(2, 5).Draw(t, "nbp"), []string{"@", "#", "#", "-"}, map[string]int{"#": 600, "-": 1000})
@@ -663,7 +708,7 @@ func TestPriority(t *testing.T) {
 		nk := rapid.IntRange(2, 6).Draw(t, "nlines")
 		var keys []string
 		for i := 0; i < nk; i++ {
-			keys = append(keys, rapid.SampledFrom([]string{"at", "hvalid", "hbad", "para", "inl@", "inl*", "plain", "defhr"}).Draw(t, "line"))
+			keys = append(keys, rapid.SampledFrom([]string{"at", "hvalid", "hbad", "para", "inl@", "inl*", "plain", "defhr", "pint%", "pint@"}).Draw(t, "line"))
 		}
 		c := kit.NewCase("priority", "").S("spec", strings.Join(parts, " ")).S("doc", strings.Join(keys, " "))
 		lastNontrivial = false
